@@ -101,6 +101,8 @@ def gen_cases(tier, seed):
             k += 1
             if k % 4 == 0:
                 c["via"] = "class" if k % 8 == 0 else "property"
+            elif k % 4 == 2:
+                c["aname"] = "parent.a" if k % 8 == 2 else "x.y"
     dist = {"exhaustive_cases": nexh, "random_cases": nrand, "by_fn": {}, "by_tree_size": {}}
     for c in cases:
         dist["by_fn"][c["fn"]] = dist["by_fn"].get(c["fn"], 0) + 1
